@@ -25,7 +25,9 @@ LEVEL_TEXT = ("Post-conditions on the four real search functions, judged against
               "small lattice (every array / query multiset / strategy / fill combination) plus random float arrays "
               "with +-1 ulp queries. Exhaustive on the stated finite sub-space, sampled beyond it.")
 LEVEL_NOTE = ("Trusts the 15-line definitional oracle (models/search.py) and CPython/NumPy comparison semantics; "
-              "inputs restricted to the property's quantifier (strictly increasing array, non-empty sorted queries).")
+              "inputs restricted to the property's quantifier (strictly increasing array, non-empty sorted queries). "
+              "'closest' is additionally judged by exact rational distances; disagreements that are pure float rounding "
+              "of the two distances are the known finding K2 (KNOWN-FINDING line, exit 0).")
 TECHNIQUE = "runtime post-condition monitor on the real functions vs definitional oracle; exhaustive small scope + random"
 REQUIRED_MONITORS = ["threads:search", "search_post:lower", "search_post:higher", "search_post:closest"]
 ASSUMPTIONS = ["queries non-empty and non-decreasing, array strictly increasing (the property's quantifier)",
